@@ -644,6 +644,12 @@ def main():
     lines_out = []
     for f, k in known_hits:
         lines_out.append("KNOWN-FINDING: property=%s %s [%s]" % (prop, k.get("what", ""), f["id"]))
+    # open findings in code no contract reaches are listed on every run as well (they were replayed on the real code,
+    # see their witness); no obligation decides them, so they cannot turn into a VIOLATION or disappear by themselves
+    hit_obl = set(k.get("obligation") for _, k in known_hits)
+    for k in known:
+        if k.get("status") == "open" and k.get("outside_contracts") and k.get("obligation") not in hit_obl:
+            lines_out.append("KNOWN-FINDING: property=%s %s [not under contract; witness %s]" % (prop, k.get("what", ""), k.get("witness", "")))
     nviol = 0
     for r, f in violations:
         nviol += 1
